@@ -757,7 +757,7 @@ impl<'a> Run<'a> {
                 None => Err(()),
                 Some(a) => Ok((a, m.start, m.expiry.checked_add(cfg.duration).unwrap_or(u32::MAX))),
             },
-            None => Ok((cfg.slots, h, h.wrapping_add(cfg.duration))),
+            None => Ok((cfg.slots, h, h.saturating_add(cfg.duration))),
         };
         match (exp, &r) {
             (Err(()), Err(e)) if e.code == tonic::Code::ResourceExhausted => {
@@ -1754,7 +1754,7 @@ impl<'a> Run<'a> {
                         pk: self.model.user_pk(u),
                         available: cfg.slots,
                         start: h,
-                        expiry: h.wrapping_add(cfg.duration),
+                        expiry: h.saturating_add(cfg.duration),
                         granted: cfg.slots as u64,
                         forfeited: 0,
                         tainted: false,
